@@ -180,7 +180,12 @@ def C04(tr):
     if tr.queue or sim.scheduler.observation_queue:
         out.append(V('C04', 'queue_not_empty', f"queue on return: shadow {tr.queue} impl {sim.scheduler.observation_queue}"))
     r = tr.pools()
-    if r['idle'] or tr.res_live or sim.cluster.num_provisioned_obs != 0:
+    # Cluster.num_provisioned_obs counts provisioning *calls*; after a user algorithm has topped a reservation up it no longer
+    # equals the number of reservations (C04 does not name that counter), so only the pools are judged then
+    topped = getattr(sim.scheduler.algorithm, 'topups', 0)
+    if topped:
+        tr.count('runs_with_topped_up_reservation')
+    if r['idle'] or tr.res_live or (sim.cluster.num_provisioned_obs != 0 and not topped):
         out.append(V('C04', 'reservation_held', f"reservation on return: {r['idle']} count={sim.cluster.num_provisioned_obs}"))
     if sorted(m.id for m in r['available']) != sorted(tr.mids):
         out.append(V('C04', 'machines_not_available', f"available on return: {r['available']}"))
